@@ -421,4 +421,135 @@ example :
     keepEsc Gen.Quote.unsafeForPath (byteOf '4' '1') = false ∧ openPct "/".toList = false := by
   decide +kernel
 
+/-! ## a substitution inside a component that is split further (`user:password`, `k=v&k=v`) -/
+
+theorem cutFirst_eq_splitFirst (sep : Char) (s : Str) : cutFirst sep s = splitFirst s sep := by
+  induction s with
+  | nil => rw [splitFirst_nil_s20]; rfl
+  | cons c cs ih =>
+    rw [splitFirst_cons_s20]
+    by_cases hc : c = sep
+    · simp [cutFirst, hc]
+    · simp [cutFirst, hc, ih]
+
+/-- where a piece without separator ends up when the string around it is cut at the first
+separator: in the second part, behind a suffix `v` of `x` — or in the first part, behind `x` -/
+theorem splitFirst_subst_shape (sep : Char) (x y m1 m2 : Str) (h1 : sep ∉ m1) (h2 : sep ∉ m2) :
+    (∃ k v, v <:+ x ∧ splitFirst (x ++ (m1 ++ y)) sep = (k, some (v ++ (m1 ++ y))) ∧
+      splitFirst (x ++ (m2 ++ y)) sep = (k, some (v ++ (m2 ++ y)))) ∨
+    (∃ s o, splitFirst (x ++ (m1 ++ y)) sep = (x ++ (m1 ++ s), o) ∧
+      splitFirst (x ++ (m2 ++ y)) sep = (x ++ (m2 ++ s), o)) := by
+  have hx := splitFirst_spec_s20 x sep
+  generalize splitFirst x sep = r at hx
+  obtain ⟨k, z⟩ := r
+  cases z with
+  | some v =>
+    left
+    obtain ⟨hk, rfl⟩ := hx
+    refine ⟨k, v, ⟨k ++ [sep], by simp⟩, ?_, ?_⟩
+    · rw [List.append_assoc, List.cons_append, splitFirst_append_sep_s20 _ _ _ hk]
+    · rw [List.append_assoc, List.cons_append, splitFirst_append_sep_s20 _ _ _ hk]
+  | none =>
+    right
+    obtain ⟨hk, rfl⟩ := hx
+    refine ⟨(splitFirst y sep).1, (splitFirst y sep).2, ?_, ?_⟩
+    · rw [splitFirst_append_left_s20 _ _ sep hk, splitFirst_append_left_s20 m1 _ sep h1]
+    · rw [splitFirst_append_left_s20 _ _ sep hk, splitFirst_append_left_s20 m2 _ sep h2]
+
+/-- … and when it is split at every separator: in one piece, behind a suffix `p` of `x` -/
+theorem splitOn_subst_shape (sep : Char) (y m1 m2 : Str) (h1 : sep ∉ m1) (h2 : sep ∉ m2) :
+    ∀ (x : Str), ∃ (A B : List Str) (p s : Str), (A = [] → p = x) ∧ p <:+ x ∧
+      splitOn (x ++ (m1 ++ y)) sep = A ++ (p ++ (m1 ++ s)) :: B ∧
+      splitOn (x ++ (m2 ++ y)) sep = A ++ (p ++ (m2 ++ s)) :: B
+  | [] => by
+    have hy := splitFirst_spec_s20 y sep
+    cases hz : (splitFirst y sep).2 with
+    | none =>
+      rw [hz] at hy
+      have hys : sep ∉ y := by rw [hy.2]; exact hy.1
+      refine ⟨[], [], [], y, fun _ => rfl, List.suffix_refl _, ?_, ?_⟩
+      · simp only [List.nil_append]
+        exact splitOn_of_not_mem sep _ (by simp [h1, hys])
+      · simp only [List.nil_append]
+        exact splitOn_of_not_mem sep _ (by simp [h2, hys])
+    | some v =>
+      rw [hz] at hy
+      refine ⟨[], splitOn v sep, [], (splitFirst y sep).1, fun _ => rfl, List.suffix_refl _, ?_, ?_⟩
+      · simp only [List.nil_append]
+        conv => lhs; rw [hy.2, ← List.append_assoc]
+        exact splitOn_append_sep sep _ _ (by simp [h1, hy.1])
+      · simp only [List.nil_append]
+        conv => lhs; rw [hy.2, ← List.append_assoc]
+        exact splitOn_append_sep sep _ _ (by simp [h2, hy.1])
+  | c :: x => by
+    obtain ⟨A, B, p, s, hA, hp, e1, e2⟩ := splitOn_subst_shape sep y m1 m2 h1 h2 x
+    by_cases hc : c = sep
+    · subst hc
+      refine ⟨[] :: A, B, p, s, (fun h => by cases h), List.suffix_cons_iff.2 (Or.inr hp), ?_, ?_⟩
+      · rw [List.cons_append, splitOn_cons_sep, e1]; rfl
+      · rw [List.cons_append, splitOn_cons_sep, e2]; rfl
+    · cases A with
+      | nil =>
+        have hpx := hA rfl
+        subst hpx
+        refine ⟨[], B, c :: p, s, fun _ => rfl, List.suffix_refl _, ?_, ?_⟩
+        · rw [List.cons_append, splitOn_cons_ne _ _ _ hc, e1]; rfl
+        · rw [List.cons_append, splitOn_cons_ne _ _ _ hc, e2]; rfl
+      | cons a A' =>
+        refine ⟨(c :: a) :: A', B, p, s, (fun h => by cases h), List.suffix_cons_iff.2 (Or.inr hp), ?_, ?_⟩
+        · rw [List.cons_append, splitOn_cons_ne _ _ _ hc, e1]; rfl
+        · rw [List.cons_append, splitOn_cons_ne _ _ _ hc, e2]; rfl
+
+/-- `m1` and `m2` are interchangeable for the unquoter with unsafe set `U` behind every suffix
+of `x` (what the three substitution laws give) -/
+def Interch (U : List UInt8) (x m1 m2 : Str) : Prop :=
+  ∀ p s, p <:+ x → safelyUnquote U (p ++ (m1 ++ s)) = safelyUnquote U (p ++ (m2 ++ s))
+
+theorem openPct_suffix {p x : Str} (h : p <:+ x) (hx : openPct x = false) : openPct p = false := by
+  obtain ⟨t, rfl⟩ := h
+  induction t with
+  | nil => exact hx
+  | cons c r ih => exact ih (openPct_tail hx)
+
+theorem interch_ascii (U : List UInt8) (hU : (0x25 : UInt8) ∈ U) (x : Str) (h1 h2 : Char)
+    (hh1 : isHexDigit h1 = true) (hh2 : isHexDigit h2 = true)
+    (hk : keepEsc U (byteOf h1 h2) = false) (hlt : (byteOf h1 h2).toNat < 0x80)
+    (hctx : isHexDigit (Char.ofNat (byteOf h1 h2).toNat) = true → openPct x = false) :
+    Interch U x ['%', h1, h2] [Char.ofNat (byteOf h1 h2).toNat] := by
+  intro p s hp
+  exact safelyUnquote_escaped_ascii U hU p s h1 h2 hh1 hh2 hk hlt (fun h => openPct_suffix hp (hctx h))
+
+theorem interch_space (U : List UInt8) (x : Str) : Interch U x ['%', '2', '0'] [' '] :=
+  fun p s _ => safelyUnquote_escaped_space U p s
+
+theorem interch_utf8 (U : List UInt8) (hA : AsciiSet U) (x : Str) (c : Char)
+    (hc : 0x80 ≤ c.toNat) (hs : List (Char × Char))
+    (hhex : ∀ p ∈ hs, isHexDigit p.1 = true ∧ isHexDigit p.2 = true)
+    (hb : hs.map (fun p => byteOf p.1 p.2) = utf8 c) : Interch U x (escStr hs) [c] :=
+  fun p s _ => safelyUnquote_escaped_utf8 U hA p s c hc hs hhex hb
+
+/-- the character an unquoter decodes is none of the bytes its table keeps escaped -/
+theorem decoded_ne_of_mem {U : List UInt8} {b : UInt8} (hk : keepEsc U b = false) (hlt : b.toNat < 0x80)
+    {d : Char} (hd : d.toNat < 0x80) (hm : UInt8.ofNat d.toNat ∈ U) : Char.ofNat b.toNat ≠ d := by
+  intro e
+  have hcn : (Char.ofNat b.toNat).toNat = b.toNat := toNat_ofNat_of_lt (by omega)
+  have : b = UInt8.ofNat d.toNat := by
+    apply uint8_eq_of_toNat
+    rw [← hcn, e]
+    simp; omega
+  rw [this, keepEsc_of_mem hm] at hk
+  cases hk
+
+theorem not_mem_escStr {sep : Char} (hsep : sep ≠ '%' ∧ isHexDigit sep = false) (hs : List (Char × Char))
+    (hhex : ∀ p ∈ hs, isHexDigit p.1 = true ∧ isHexDigit p.2 = true) : sep ∉ escStr hs := by
+  intro hm
+  simp only [escStr, List.mem_flatMap] at hm
+  obtain ⟨p, hp, hm⟩ := hm
+  have := hhex p hp
+  simp only [List.mem_cons, List.not_mem_nil, or_false] at hm
+  rcases hm with rfl | rfl | rfl
+  · exact hsep.1 rfl
+  · rw [this.1] at hsep; cases hsep.2
+  · rw [this.2] at hsep; cases hsep.2
+
 end Ural.C02String
